@@ -9,6 +9,7 @@ import (
 	"fmt"
 	"os"
 	"runtime/debug"
+	"strings"
 	"testing"
 	"testing/synctest"
 	"time"
@@ -264,6 +265,18 @@ func TestWorker(t *testing.T) {
 			budget = 2000
 		}
 		var last *Outcome
+		// metric oracles: shrink with doubled thresholds when the original exceeds them too, so that
+		// the minimised case is not borderline; otherwise keep the original trace unshrunk
+		{
+			scfg := *cfg
+			scfg.Strict = true
+			scfg.Pin = v.Pin
+			if o := runOnce(t, e, ReplayChoices(v.Trace), &scfg); o.Class == v.Class {
+				cfg.Strict = true
+			} else if strings.HasSuffix(v.Class, "/alloc") || strings.HasSuffix(v.Class, "/runaway") || strings.HasSuffix(v.Class, "/no-progress") {
+				budget = 1
+			}
+		}
 		test := func(tr []uint64) (string, []uint64) {
 			ch := ReplayChoices(tr)
 			o := runOnce(t, e, ch, cfg) // no pin: any fault of the enumeration may witness the class
@@ -273,7 +286,8 @@ func TestWorker(t *testing.T) {
 			return o.Class, ch.Trace
 		}
 		small, calls := Shrink(v.Trace, v.Class, budget, test)
-		// final run for the details of the minimised case
+		// final run for the details of the minimised case (normal thresholds)
+		cfg.Strict = false
 		ch := ReplayChoices(small)
 		ch.Keep = true
 		o := runOnce(t, e, ch, cfg)
